@@ -30,7 +30,7 @@ DEF = ["lowrank", "zero_column", "zero_column_negzero", "zero_column_masked", "d
 
 def cases(tier, seed):
     out = []
-    maxd = 7 if tier == "quick" else 12
+    maxd = 7 if tier == "quick" else 18
     rep = 40 if tier == "quick" else 600
     idx = 0
     for cls in FULL:
